@@ -268,6 +268,75 @@ fn c07_typed(rep: &mut Report, replay: &Option<Value>) {
     }
 }
 
+
+/// a `more` stream in which one message is undecodable (or does not fit the reply type) while the others are
+/// well-formed: the bad one is reported as an error, every well-formed one is still reported for what it is,
+/// the iteration ends at the final reply and the connection is free again
+fn c07_streams(rep: &mut Report, replay: &Option<Value>) {
+    let bads: Vec<(&str, Vec<u8>)> = vec![
+        ("invalid-json", b"{x}\0".to_vec()),
+        ("truncated-json", b"{\"continues\":true,\"parameters\":{\"i\":\0".to_vec()),
+        ("continues-ill-typed", b"{\"continues\":\"yes\",\"parameters\":{}}\0".to_vec()),
+        ("error-ill-typed", b"{\"continues\":true,\"error\":5}\0".to_vec()),
+        ("not-an-object", b"[1,2]\0".to_vec()),
+        ("invalid-utf8", b"{\"continues\":true,\"parameters\":{\"s\":\"\xff\xfe\"}}\0".to_vec()),
+    ];
+    for (bn, bad) in &bads {
+        for n in 2..=4usize {
+            for pos in 0..n - 1 {
+                // n messages: items 0..n-2 carry continues, the last one is final; the message at `pos` is replaced
+                let case = json!({"part": "stream", "bad": bn, "messages": n, "bad_at": pos});
+                if let Some(r) = replay {
+                    if *r != case {
+                        continue;
+                    }
+                }
+                rep.eval(Some(&case.to_string()));
+                let mut stream: Vec<u8> = vec![];
+                for i in 0..n {
+                    if i == pos {
+                        stream.extend(bad.iter());
+                    } else if i + 1 < n {
+                        stream.extend(frame(&json!({"continues": true, "parameters": {"i": i}})));
+                    } else {
+                        stream.extend(frame(&json!({"parameters": {"i": i}})));
+                    }
+                }
+                let first = std::sync::atomic::AtomicBool::new(true);
+                let (conn, _peer) = mk_conn(Arc::new(move |req: &Value| if first.swap(false, std::sync::atomic::Ordering::SeqCst) { stream.clone() } else { frame(&json!({"parameters": {"tok": req["parameters"]["tok"]}})) }));
+                let r = guarded(|| {
+                    let mut mc = MC::new(conn.clone(), "a.b.C", json!({"tok": "first"}));
+                    let items: Vec<Result<Value, String>> = match mc.more() {
+                        Err(e) => vec![Err(kind_name(&e))],
+                        Ok(it) => it.take(8).map(|r| r.map_err(|e| kind_name(&e))).collect(),
+                    };
+                    drop(mc);
+                    let second = MC::new(conn.clone(), "a.b.C", json!({"tok": "second"})).call().map_err(|e| kind_name(&e));
+                    (items, second)
+                });
+                match r {
+                    Err(p) => rep.violation("C07/stream/panic", &p, case),
+                    Ok((items, second)) => {
+                        rep.outcome(&format!("{}:{:?}", bn, items.iter().map(|i| i.is_ok()).collect::<Vec<_>>()));
+                        let want: Vec<Option<Value>> = (0..n).map(|i| if i == pos { None } else { Some(json!({"i": i})) }).collect();
+                        let ok = items.len() == n && items.iter().zip(want.iter()).all(|(g, w)| match (g, w) {
+                            (Ok(v), Some(w)) => v == w,
+                            (Err(_), None) => true,
+                            _ => false,
+                        });
+                        if !ok {
+                            rep.violation("C07/stream/items", &format!("stream of {} messages with an undecodable one ({}) at position {}: the iteration yielded {:?}; expected {:?} (None = an error), then the end", n, bn, pos, items, want), case.clone());
+                        }
+                        if second != Ok(json!({"tok": "second"})) {
+                            rep.violation("C07/stream/connection-not-freed", &format!("after the final reply of that stream the next call returned {:?}", second), case);
+                        }
+                    }
+                }
+            }
+        }
+    }
+}
+
 // ------------------------------------------------------------------ C07 (b) single-thread histories
 
 #[derive(Debug, Clone, Copy, PartialEq)]
@@ -472,13 +541,16 @@ fn c07_histories(rep: &mut Report, replay: &Option<Value>, maxlen: usize, args: 
 }
 
 fn c07(args: &Args) -> ! {
-    let mut rep = Report::new("C07", "(a) every reply object over {no error | each of the 4 standard errors | custom | other service-prefixed | empty name} x parameters {absent, right member, ill-typed member, other member, {}, null, non-object} x continues {absent,false} through MethodCall::call; (a') final replies whose parameters do not fit the caller's reply type (the call fails, the connection is free again); (b) every history over {call, more, next, oneway, second send on the same object, drop of the iteration object} up to length 4 (thorough 6) on one connection against a synchronous scripted peer, compared step by step with a slots-free/taken model (busy => ConnectionBusy and no byte written; resend => MethodCalledAlready; after the final reply the connection is free; the peer saw exactly the non-busy requests with the right flags); non-trivial = distinct reply object / history");
+    let mut rep = Report::new("C07", "(a) every reply object over {no error | each of the 4 standard errors | custom | other service-prefixed | empty name} x parameters {absent, right member, ill-typed member, other member, {}, null, non-object} x continues {absent,false} through MethodCall::call; (a') final replies whose parameters do not fit the caller's reply type (the call fails, the connection is free again); (a'') `more` streams of 2-4 messages in which the message at each non-final position is undecodable (6 kinds): the bad one is an error, every well-formed one is still reported as what it is, the iteration ends at the final reply, the connection is free again; (b) every history over {call, more, next, oneway, second send on the same object, drop of the iteration object} up to length 4 (thorough 6) on one connection against a synchronous scripted peer, compared step by step with a slots-free/taken model (busy => ConnectionBusy and no byte written; resend => MethodCalledAlready; after the final reply the connection is free; the peer saw exactly the non-busy requests with the right flags); non-trivial = distinct reply object / history");
     let replay = args.replay_case();
     if replay.as_ref().map(|r| r["part"] == "outcome").unwrap_or(true) && args.shard == 0 {
         c07_outcomes(&mut rep, &replay);
     }
     if replay.as_ref().map(|r| r["part"] == "typed").unwrap_or(true) && args.shard == 0 {
         c07_typed(&mut rep, &replay);
+    }
+    if replay.as_ref().map(|r| r["part"] == "stream").unwrap_or(true) && args.shard == 0 {
+        c07_streams(&mut rep, &replay);
     }
     if replay.as_ref().map(|r| r["part"] == "history").unwrap_or(true) {
         c07_histories(&mut rep, &replay, if args.thorough() { 6 } else { 4 }, args);
